@@ -255,16 +255,29 @@ func checkC16(c *vx.Ctx) {
 		"Part 3: the same thread bodies run free 200x under -race on the real tmmemstore; a case is one shard of scenarios, non-trivial when for some scenario the free runs produced at least two different output vectors (the threads really interleaved in more than one way). " +
 		"evaluations = sequences + schedules + free runs; states = distinct canonical store states (rendering of loading every key of the real store after a sequence), summed over stores; transitions = sequential operations checked + schedule steps."
 	c.Assume("heights >= 1, non-empty signatures, non-nil public keys (the stores use the zero values as 'absent' markers)")
-	c.Assume("callers do not modify values after passing them to a store or after receiving them from it (tmmemstore keeps and returns references; nil and empty slices/maps are treated alike)")
+	c.Assume("in the sequence and interleaving explorations callers do not modify values after passing them to a store or after receiving them from it (nil and empty slices/maps are treated alike); what happens when they do is checked separately for the validator store (Part 4)")
 	c.Assume("where the interface comments are silent (same proposer with another hash, replayed header saved twice or before a proposed header of the same hash, both refusal reasons applying at once) every plausible behaviour is accepted")
 	c.Assume("scheduling points only at mutex operations is sound because unsynchronised accesses are caught by the -race companion pass; the Go race detector and testing/synctest are trusted")
-	c.Extra["aliasing_observations_informational"] = aliasingProbe()
+	// Part 4: the validator store must return for a hash what hashes to it, whatever the caller does with the slices it
+	// passed in or got back.
+	al := aliasingProbe()
+	c.Extra["aliasing_observations"] = al
+	for _, k := range []struct{ key, sig, msg string }{
+		{"SavePubKeys keeps the caller's slice (later caller writes change LoadPubKeys)", "alias:SavePubKeys-keeps-callers-slice", "SavePubKeys([k0,k1]) -> H; the caller then writes keys[0]=k2; LoadPubKeys(H) returns [k2,k1], which does not hash to H"},
+		{"SaveVotePowers keeps the caller's slice", "alias:SaveVotePowers-keeps-callers-slice", "SaveVotePowers([1,2]) -> H; the caller then writes pows[0]=9; LoadVotePowers(H) returns [9,2], which does not hash to H"},
+		{"LoadPubKeys returns the store's own slice (caller writes change later loads)", "alias:LoadPubKeys-returns-own-slice", "LoadPubKeys(H) hands out the store's own slice: a caller write to it changes what every later LoadPubKeys(H) returns"},
+		{"LoadVotePowers returns the store's own slice (caller writes change later loads)", "alias:LoadVotePowers-returns-own-slice", "LoadVotePowers(H) hands out the store's own slice: a caller write to it changes what every later LoadVotePowers(H) returns"},
+	} {
+		if al[k.key] {
+			c.Violate(vx.Violation{Prop: "C16", Sig: k.sig, Msg: k.msg}, vx.Job{})
+		}
+	}
 	c.Extra["explanation"] = "exhaustive:true refers to the stated bounds (sequence length, scenario families, value universe), not to all histories"
 }
 
-// aliasingProbe records (it does not judge) whether the real validator store shares memory with its
-// callers: a caller that modifies a slice after saving it, or a slice it got from a load, would
-// change what the store returns for a hash. This is outside the check's stated assumptions.
+// aliasingProbe reports whether the real validator store shares memory with its callers: a caller that
+// modifies a slice after saving it, or a slice it got from a load, would change what the store returns for
+// a hash.
 func aliasingProbe() map[string]bool {
 	out := map[string]bool{}
 	ctx := context.Background()
